@@ -87,3 +87,69 @@ Example C06_nonvacuous :
   m_time m = 2 /\ m_time m2 = 122 /\ series_at m 1 = series_at m2 1 /\
   getz (m_vol m2) 1 = 2 /\ q_at m2 123 = verr EFuture.
 Proof. vm_compute. repeat split. Qed.
+
+Require Import Pams.SimLift Pams.SimInv Pams.SimBooks Pams.SimMarketLift Pams.SimPast.
+
+(* RECORDED HISTORY NEVER CHANGES, IN ANY SIMULATION (theories/SimPast.v).  [wf] is the run invariant: the initial state satisfies it
+   (wf_init) and the begin record, the clock update, any number of steps and whole sessions preserve it (wf_boundary, wf_tick_all,
+   wf_iterate, wf_run_session) - for every configuration with distinct market ids, every tape, every agent behaviour, every event.
+   From any such state, after ANY number of further steps (orders, cancels, matching rounds, halts, shocks, clock updates), given that
+   accepted orders have positive volume and time-to-live: the markets are the same, no clock has moved backwards, and for every time
+   strictly before a market's clock in the earlier state all eight recorded values are exactly what they were. *)
+Theorem C06_recorded_history_never_changes_in_a_run : forall s0 n,
+  wf s0 -> valid_tr s0 -> valid_tr (iterate n s0) ->
+  mids (iterate n s0) = mids s0 /\
+  forall x', In x' (s_markets (iterate n s0)) ->
+    exists x, In x (s_markets s0) /\ m_id (mk_m x') = m_id (mk_m x) /\ m_time (mk_m x) <= m_time (mk_m x') /\
+              forall i, 0 <= i < m_time (mk_m x) -> series_at (mk_m x') i = series_at (mk_m x) i.
+Proof. exact past_is_fixed_over_steps. Qed.
+Print Assumptions C06_recorded_history_never_changes_in_a_run.
+
+Theorem C06_recorded_history_survives_a_session : forall s0 se,
+  wf s0 -> valid_tr s0 -> valid_tr (run_session s0 se) ->
+  mids (run_session s0 se) = mids s0 /\
+  forall x', In x' (s_markets (run_session s0 se)) ->
+    exists x, In x (s_markets s0) /\ m_id (mk_m x') = m_id (mk_m x) /\ m_time (mk_m x) <= m_time (mk_m x') /\
+              forall i, 0 <= i < m_time (mk_m x) -> series_at (mk_m x') i = series_at (mk_m x) i.
+Proof. exact past_is_fixed_over_a_session. Qed.
+Print Assumptions C06_recorded_history_survives_a_session.
+
+Theorem C06_every_state_of_a_run_is_well_formed : forall c tape batches funds,
+  NoDup (map mc_id (c_markets c)) ->
+  wf (init_sim c tape batches funds) /\
+  (forall s e, boundary_event e -> wf s -> wf (flush (write s e))) /\ (forall s, wf s -> wf (tick_all s)) /\
+  (forall n s, wf s -> wf (iterate n s)) /\ (forall s se, wf s -> wf (run_session s se)) /\ wf (run c tape batches funds).
+Proof.
+  intros c tape batches funds N. split; [apply wf_init; exact N|]. split; [exact wf_boundary|]. split; [exact wf_tick_all|].
+  split; [exact wf_iterate|]. split; [exact wf_run_session|apply wf_run; exact N].
+Qed.
+Print Assumptions C06_every_state_of_a_run_is_well_formed.
+
+(* premises met: after a first session of two steps with a trade at t = 1, a second session leaves times 0 and 1 as recorded *)
+Example C06_past_nonvacuous :
+  let c := mkCfg [mkMC 0 (1#1) (100#1) None 1] [mkAC 0 false (1000#1) [(0, 10)]; mkAC 1 false (1000#1) [(0, 10)]]
+                 [mkSC 0 2 true true 2 1 (0#1); mkSC 1 2 true true 2 1 (0#1)] [] in
+  let tape := [TPerm [0; 1]; TPerm [0; 1]; TDraw (1#2); TDraw (1#2); TPerm [0; 1]; TPerm [0]; TDraw (1#2);
+               TPerm [0; 1]; TPerm [0; 1]; TDraw (1#2); TDraw (1#2); TPerm [0; 1]; TPerm []]%nat in
+  let batches := [(0, [RNew 1 0 0 false (Some (100#1)) 5 None]); (1, [RNew 2 1 0 true (Some (100#1)) 2 None]);
+                  (0, [Sim.RCancel 1 0 0]); (1, []);
+                  (0, [RNew 3 0 0 false (Some (101#1)) 1 None]); (1, [RNew 4 1 0 true (Some (102#1)) 1 None]); (0, []); (1, [])] in
+  let funds := [(0, 0, 100#1); (0, 1, 100#1); (0, 2, 100#1); (0, 3, 100#1); (0, 4, 100#1)] in
+  let s1 := tick_all (flush (write (init_sim c tape batches funds) EvSimBegin)) in
+  match s_sessions s1 with
+  | se1 :: se2 :: _ =>
+      let sa := run_session s1 se1 in let sb := run_session sa se2 in
+      wf sa /\ valid_tr sa /\ valid_tr sb /\ ok sb = true /\
+      map (fun x => m_time (mk_m x)) (s_markets sa) = [2] /\ map (fun x => m_time (mk_m x)) (s_markets sb) = [4] /\
+      map (fun x => getz (m_vol (mk_m x)) 0) (s_markets sb) = [2]
+  | _ => False
+  end.
+Proof.
+  cbv zeta. match goal with |- match s_sessions ?s with _ => _ end => set (s1 := s) end.
+  assert (W1 : wf s1).
+  { apply wf_tick_all, wf_boundary; [exact Logic.I|]. apply wf_init. repeat constructor; simpl; tauto. }
+  vm_compute (s_sessions s1). split; [apply wf_run_session; exact W1|].
+  split; [unfold valid_tr; vm_compute truths; repeat constructor; simpl; try lia; intros k Hk; try discriminate; inversion Hk; lia|].
+  split; [unfold valid_tr; vm_compute truths; repeat constructor; simpl; try lia; intros k Hk; try discriminate; inversion Hk; lia|].
+  vm_compute. repeat split.
+Qed.
